@@ -20,6 +20,8 @@ int gw = 1;
 int setg(int v) { gi = v is byte; gw = v; write('s'); return 7; }
 int own(int n) { int[] loc = [n, n + 1, n + 2]; return loc[0] + loc[2]; }
 int own3(int p, int q, int r) { return p + q + r; }
+int two(int v) { int[] p = [v, 1, 2]; int[] q = [3, 4, v]; return q[2]; }
+byte twob(int v) { byte[] p = ['p', 'q', 'r']; bool[] o = [true, false, true, true, false, true, false, false, true]; byte[] q = ['x', 'y']; return q[1]; }
 int rec(int d) { int[] loc = [d, d]; if (d <= 0) { return loc[1]; } return rec(d - 1) + loc[0]; }
 int el(int v) { write('e'); return v; }
 bool elb(int v) { write('e'); return v > 1; }
@@ -79,6 +81,8 @@ ACTIONS = {
     'own': lambda t: 'write(own(n));',
     'writes': lambda t: "write(n); write('c'); write(n > 0); write(\"str\"); writeln(-n);",
     # a one-byte slot is the deepest point of the frame
+    # two (three) array literals alive at once are the deepest point of a callee
+    'twolit': lambda t: "write(two(n)); write(twob(n));",
     'writebool': lambda t: "write(n > 0);",
     'bytelocal': lambda t: "byte last = (n + 65) is byte; write(last);",
     'writemin': lambda t: "int mn = 1; while (mn > 0) { mn = mn * 2; } write(mn);",
